@@ -4699,7 +4699,7 @@ class NotImplies1Macro(Macro):
         if goal != prop.arg.arg1:
             raise VeriTException("not_implies1", "unexpected argument")
         
-        return Thm(goal)
+        return Thm(goal, prevs[0].hyps)
 
     def get_proof_term(self, args, prevs):
         goal = args[0]
